@@ -175,7 +175,7 @@ def run(tier, seed, only=None):
                       "(none, partial, empty), 1-3 phases with non-contiguous ids and not-indexed points, phases with "
                       "space group / point group / both / none, 0-15 atoms, 7 lattices, 16 colour spellings, 0-4 "
                       "properties of 7 dtypes with 1 or 2 values per point, 6 scan units; 20 hostile strata (one per "
-                      "forced hypothesis of the Coq theorem). Every case goes through a real HDF5 file (both "
+                      "forced hypothesis of the Coq theorem or repaired defect). Every case goes through a real HDF5 file (both "
                       "extensions) which is dumped and removed; model save vs file, model load(file) vs loaded map "
                       "inside Coq; oracle = field-by-field numpy comparison, save-does-not-mutate, second cycle. "
                       "distinct = distinct observed map record")
